@@ -168,3 +168,28 @@ func TestF15g_JarKeyNotAliased(t *testing.T) {
 		t.Fatalf("jar returns %d cookies for b.example, which never stored any", n)
 	}
 }
+
+// F30: path parameters were substituted in map-iteration order with strings.ReplaceAll; when one key
+// is a prefix of another the resulting URL differed from run to run.
+func TestF30_PathParameterSubstitutionIsDeterministic(t *testing.T) {
+	app := fiber.New()
+	app.Get("/*", func(c fiber.Ctx) error { return c.SendString(c.Path()) })
+	ln, err := net.Listen("tcp", "127.0.0.1:0")
+	if err != nil {
+		t.Skip("no loopback listener")
+	}
+	go func() { _ = app.Listener(ln, fiber.ListenConfig{DisableStartupMessage: true}) }()
+	defer func() { _ = app.Shutdown() }()
+	seen := map[string]int{}
+	for i := 0; i < 60; i++ {
+		resp, err := client.New().R().SetPathParam("id", "1").SetPathParam("idx", "2").Get("http://" + ln.Addr().String() + "/u/:idx/:id")
+		if err != nil {
+			t.Fatal(err)
+		}
+		seen[string(resp.Body())]++
+		resp.Close()
+	}
+	if len(seen) != 1 || seen["/u/2/1"] == 0 {
+		t.Fatalf("one configuration, several URLs: %v (want /u/2/1 every time)", seen)
+	}
+}
